@@ -137,6 +137,9 @@ type Conn struct {
 	perspective protocol.Perspective
 	version     protocol.Version
 	config      *Config
+	// [UQUIC] advertisedParams is set for a spec-driven client: the transport parameters it put on
+	// the wire. The stream receive windows are advertised per stream type (see newFlowController).
+	advertisedParams *wire.TransportParameters
 
 	conn      sendConn
 	sendQueue sender
@@ -2945,11 +2948,25 @@ func (c *Conn) newFlowController(id protocol.StreamID) flowcontrol.StreamFlowCon
 			initialSendWindow = c.peerParams.InitialMaxStreamDataBidiLocal
 		}
 	}
+	receiveWindow := protocol.ByteCount(c.config.InitialStreamReceiveWindow)
+	maxReceiveWindow := protocol.ByteCount(c.config.MaxStreamReceiveWindow)
+	if p := c.advertisedParams; p != nil {
+		// [UQUIC] the peer was told a receive window per stream type: that is the window to enforce and to update
+		receiveWindow = p.InitialMaxStreamDataUni
+		if id.Type() == protocol.StreamTypeBidi {
+			if id.InitiatedBy() == c.perspective {
+				receiveWindow = p.InitialMaxStreamDataBidiLocal
+			} else {
+				receiveWindow = p.InitialMaxStreamDataBidiRemote
+			}
+		}
+		maxReceiveWindow = max(maxReceiveWindow, receiveWindow)
+	}
 	return flowcontrol.NewStreamFlowController(
 		id,
 		c.connFlowController,
-		protocol.ByteCount(c.config.InitialStreamReceiveWindow),
-		protocol.ByteCount(c.config.MaxStreamReceiveWindow),
+		receiveWindow,
+		maxReceiveWindow,
 		initialSendWindow,
 		c.rttStats,
 		c.logger,
